@@ -954,15 +954,16 @@ func (r *runningStep) cancelStep() {
 		// Verify that the step has a cancel signal
 		if !r.hasCancellationHandler() {
 			r.logger.Errorf("could not cancel step %s/%s. Does not contain cancel signal receiver.", r.runID, r.pluginStepID)
-		}
-		cancelSignal := r.getCancellationHandler()
-		if err := plugin.CancellationSignalSchema.DataSchema().ValidateCompatibility(cancelSignal.DataSchema()); err != nil {
-			r.logger.Errorf("validation failed for cancel signal for step %s/%s: %s", r.runID, r.pluginStepID, err)
-		} else if r.signalToStep == nil {
-			r.logger.Debugf("signal send channel closed; the step %s/%s likely finished", r.runID, r.pluginStepID)
 		} else {
-			// Validated. Now call the signal.
-			r.signalToStep <- schema.Input{RunID: r.runID, ID: cancelSignal.ID(), InputData: map[any]any{}}
+			cancelSignal := r.getCancellationHandler()
+			if err := plugin.CancellationSignalSchema.DataSchema().ValidateCompatibility(cancelSignal.DataSchema()); err != nil {
+				r.logger.Errorf("validation failed for cancel signal for step %s/%s: %s", r.runID, r.pluginStepID, err)
+			} else if r.signalToStep == nil {
+				r.logger.Debugf("signal send channel closed; the step %s/%s likely finished", r.runID, r.pluginStepID)
+			} else {
+				// Validated. Now call the signal.
+				r.signalToStep <- schema.Input{RunID: r.runID, ID: cancelSignal.ID(), InputData: map[any]any{}}
+			}
 		}
 	}
 	// Now cancel the context to stop the non-running parts of the step
